@@ -101,9 +101,10 @@ def run(ctx):
     # ---------------------------------------------------------------- candidate lists vs arms
     f = ctx.fn("darling_core::codegen::variant_data::FieldsGen::<'a>::core_loop")
     if f:
-        fm = ctx.find_calls(f, r"Iterator>::filter_map|Iterator::filter_map")
-        ok = len(fm) == 1 and "Field::<'a>::as_name" in ctx.expr(f, fm[0][1]["args"][1]) and "self.fields" in ctx.expr(f, fm[0][1]["args"][0])
-        ctx.ob("C17.S.field-candidates-are-addressable-names", f.key, "names = fields.iter().filter_map(Field::as_name)", ok, "%s" % [[ctx.expr(f, a)[:100] for a in t["args"]] for _, t in fm])
+        # (computed in core_loop or in a helper it calls)
+        fm = [(g, t) for g in [f] + ctx.local_callees(f, depth=1) for _, t in ctx.find_calls(g, r"Iterator>::filter_map|Iterator::filter_map")]
+        ok = len(fm) == 1 and "Field::<'a>::as_name" in ctx.expr(fm[0][0], fm[0][1]["args"][1]) and "self.fields" in ctx.expr(fm[0][0], fm[0][1]["args"][0])
+        ctx.ob("C17.S.field-candidates-are-addressable-names", f.key, "names = fields.iter().filter_map(Field::as_name)", ok, "%s" % [[ctx.expr(g, a)[:100] for a in t["args"]] for g, t in fm])
     f = ctx.fn("darling_core::codegen::field::Field::<'a>::as_name")
     if f:
         for blk, i, st in ctx.find_aggregates(f, r"^core::option::Option$", "Some"):
